@@ -93,7 +93,7 @@ pub fn check(sc: &Scenario, ex: &mut Exec) -> (Verdict, Option<String>) {
                     if let Ok(mut e2) = ex.engine(&tabs2) {
                         let rows_sql = format!(
                             "SELECT __w.unit AS u, count(*) AS n FROM {} JOIN \"__own_{}\" AS __w ON __w.rid = {}.rowid{} GROUP BY __w.unit",
-                            q.from_clause(), base_table, base_alias, q.where_clause()
+                            q.from_clause_flat(), base_table, base_alias, q.where_clause_flat()
                         );
                         if let Ok((rs, _)) = ex.query(&mut e2, "rows_per_unit", &rows_sql, &plan) {
                             let r_max = rs.rows.iter().filter_map(|r| num(&r[1])).fold(0.0, f64::max);
